@@ -25,21 +25,21 @@ func (Prop) Describe() core.Description {
 	return core.Description{
 		Level: "fault_enumeration",
 		Rule: "enumerated part (walked completely, every tier): 6 helpers x {V, *P} x 8 behaviours of the type under test x 4 Before x 4 After hook behaviours x 23 predicate kinds (met, unmet, near-miss, one-byte-longer, empty and two caller-written silent variants) x 3 constraints x 4 positions {only, first, middle, last of 3} (+ TypeHelper variants, + types lacking the interface under both FailNow environments); " +
-			"seeded part: lists of 0-12 cases with tape-chosen combinations, several faults per list, 5 type shapes, both TestingT environments, optional recording TypeHelper, singleton re-runs of every case. " +
+			"seeded part: lists of 0-12 cases (one list in 40: 13-64 cases) with tape-chosen combinations, several faults per list, 7 type shapes (V, *P, *V, interface-typed Both, OnlyM, OnlyU, None), both TestingT environments, optional recording TypeHelper, singleton re-runs of every case. " +
 			"Oracle written from the statement: per case, failure reported <=> applicable and unsatisfied (L2), nothing for inapplicable cases (L4), no panic escapes (L3), type lacking the interface reported (L1), hooks receive their case's list position (L5). " +
 			"A list is non-trivial if a collaborator fault fired in an applicable case; distinct = distinct (helper, shape, position class, constraint, behaviour, hooks, predicate, verdict) tuples reached",
 		Assumptions: []string{
 			"a panic of the type under test counts as an error whose text begins 'panic: <value>\\n' (pinned by the library's own Test_MarshalText_Panic and CHANGELOG 0.8.0)",
 			"two corners the statement leaves open are not generated: an error returned with a non-nil but empty slice; hooks that mutate the case they are handed. A non-empty list for a type lacking the interface is expected to be reported whatever the constraints of its cases (the type is a property of T, not of a case; anchor: interface check on the first case)",
 			"failures are attributed to cases by bracketing recorder events between the scripted collaborator invocations of consecutive cases",
-			"lists longer than 12 cases and types other than the five scripted shapes are outside the bound",
+			"lists longer than 64 cases and types other than the seven scripted shapes are outside the bound",
 		},
 		Real: []string{"test.MarshalText/Binary/JSON", "test.UnmarshalText/Binary/JSON", "callForCase, safe*, castToFunc, helperNew, helperAssert*", "AnyError/Error/ErrorHasPrefix/ErrorHasSuffix/ErrorMatch", "testify assert"},
-		Stub: []string{"types under test (scripted V, *P, OnlyM, OnlyU, None)", "Before/After hooks (scripted)", "TestingT (recorder; FailNow returns / exits goroutine)", "TypeHelper (recording)"},
+		Stub: []string{"types under test (scripted V, *P, *V, interface-typed Both, OnlyM, OnlyU, None)", "Before/After hooks (scripted)", "TestingT (recorder; FailNow returns / exits goroutine)", "TypeHelper (recording)"},
 		Notes: map[string]string{
 			"sim_time_note": "C20 has no clock in it; sim_time_ns is 0 by construction",
 		},
-		RequiredProbesQuick: []string{"panic_recovered_call", "panic_recovered_hook", "error_with_data", "wrong_data_only", "inapplicable_faulty", "goexit_env", "invalid_regexp", "lacking_interface", "lacking_interface_all_inapplicable", "typehelper_used", "nil_receiver", "nil_value_unmarshal", "nil_interface_value"},
+		RequiredProbesQuick: []string{"panic_recovered_call", "panic_recovered_hook", "error_with_data", "wrong_data_only", "inapplicable_faulty", "goexit_env", "invalid_regexp", "lacking_interface", "lacking_interface_all_inapplicable", "typehelper_used", "nil_receiver", "nil_value_unmarshal", "nil_interface_value", "long_list"},
 	}
 }
 
@@ -377,7 +377,7 @@ func (Prop) RunEnum(i int, o core.RunOpts) *core.Result {
 	return finish(res, ls, o, []string{fmt.Sprintf("enumeration index %d", i)})
 }
 
-var shapeWeights = [...]int{shV, shV, shV, shP, shP, shP, shOnlyM, shOnlyU, shNone, shIface, shIface}
+var shapeWeights = [...]int{shV, shV, shV, shP, shP, shP, shOnlyM, shOnlyU, shNone, shIface, shIface, shPV, shPV}
 
 func genCase(t *core.Tape) caseSpec {
 	c := caseSpec{}
@@ -413,6 +413,10 @@ func (Prop) Run(t *core.Tape, o core.RunOpts) *core.Result {
 	ls.goexit = t.Bool(1, 3)
 	ls.typeHelper = ls.dir == dirUnmarshal && t.Bool(1, 3)
 	n := t.Choose(13)
+	if t.Bool(1, 40) {
+		n = 13 + t.Choose(52) // once in a while a long list
+		res.Probes.Inc("long_list")
+	}
 	for i := 0; i < n; i++ {
 		ls.cases = append(ls.cases, genCase(t))
 	}
